@@ -35,6 +35,7 @@ pub fn line(rng: &mut Rng) -> Vec<u8> {
                 0 => {}
                 1 => l.push(b' '),
                 2 => { l.extend_from_slice(b"  \t"); l.extend_from_slice(&arg(rng)); }
+                3 => { l.push(b' '); l.extend_from_slice(*rng.pick(&[&b"\x0b"[..], &b"\x0c\r"[..], &b"\t\x0b "[..], &b"\r"[..]])); if rng.chance(3, 4) { l.extend_from_slice(&arg(rng)); } }
                 _ => { l.push(b' '); l.extend_from_slice(&arg(rng)); }
             }
         }
@@ -44,7 +45,7 @@ pub fn line(rng: &mut Rng) -> Vec<u8> {
 
 /// mostly valid lists (so that parsing succeeds and the views are exercised)
 pub fn good_line(rng: &mut Rng) -> Vec<u8> {
-    let dir = |rng: &mut Rng| -> Vec<u8> { match rng.below(4) { 0 => b"/usr/pkg".to_vec(), 1 => b"/opt/".to_vec(), 2 => vec![b'/', 0xe9], _ => b"rel/dir".to_vec() } };
+    let dir = |rng: &mut Rng| -> Vec<u8> { match rng.below(6) { 0 => b"/usr/pkg".to_vec(), 1 => b"/opt/".to_vec(), 2 => vec![b'/', 0xe9], 3 => vec![b'/', b'c', 0xe9, b'/'], 4 => "/d\u{e9}/".as_bytes().to_vec(), _ => b"rel/dir".to_vec() } };
     match rng.below(16) {
         0..=4 => { let mut f: Vec<u8> = rng.pick_str(&["bin/a", "b", "man/man1/x.1", "lib/\u{e9}.so", "c"]).as_bytes().to_vec(); if rng.chance(1, 8) { f.push(0xf8); } f }
         5..=6 => b"@ignore".to_vec(),
